@@ -36,7 +36,8 @@ type trSpec struct {
 	assertions map[string][2]string // asserted type (source text) -> (value template, ok template) applied to the operand
 	externMeth map[string]string    // "<qualified receiver type>.<method>" -> Lean function applied to the receiver
 	onlyTypes  map[string]bool      // if non-nil, only these struct types are emitted
-	externCall map[string]externCallSpec // "<pkg path>.<Type>.<Method>" of ANOTHER translated package -> its Lean function
+	externCall map[string]externCallSpec // "<pkg path>.<Type>.<Method>" / "<pkg path>.<Func>" of ANOTHER translated package -> its Lean function
+	nonNilWhenTrue map[string][]string  // function (of another package) whose result `true` implies that these fields of its argument are non-nil (proved in Lean)
 }
 
 type externCallSpec struct {
@@ -57,10 +58,10 @@ var trSpecs = []trSpec{
 		externTys: map[string]string{"github.com/golang-jwt/jwt/v4.RegisteredClaims": "Go.RegisteredClaims", "github.com/golang-jwt/jwt/v4.ClaimStrings": "(List String)"},
 		optionPtr: map[string]string{"github.com/golang-jwt/jwt/v4.NumericDate": "Go.NumericDate"},
 		externMeth: map[string]string{"github.com/golang-jwt/jwt/v4.NumericDate.IsZero": "Go.NumericDate.IsZero"},
-		skip:      map[string]string{"NewToken": "constructor (time.Unix, jwt.NewNumericDate)"}},
+		},
 	{dir: "internal/access", module: "GenAccess", ns: "Gen.access", extraImps: []string{"Relay.Base.GoAccess", "Relay.Extracted.GenDeny", "Relay.Extracted.GenTtlcode"},
 		wantedOnly: map[string]bool{"claimsCheck": true, "isRelayAdmin": true, "hasStatsScope": true, "denyHandler": true, "allowHandler": true,
-			"listDeniedHandler": true, "listAllowedHandler": true},
+			"listDeniedHandler": true, "listAllowedHandler": true, "sessionHandler": true},
 		onlyTypes: map[string]bool{"Config": true},
 		externCall: map[string]externCallSpec{
 			"github.com/practable/relay/internal/deny.Store.Deny":                 {"Gen.deny.Store.Deny", true},
@@ -69,7 +70,12 @@ var trSpecs = []trSpec{
 			"github.com/practable/relay/internal/deny.Store.GetAllowList":         {"Gen.deny.Store.GetAllowList", false},
 			"github.com/practable/relay/internal/deny.Store.IsDenied":             {"Gen.deny.Store.IsDenied", false},
 			"github.com/practable/relay/internal/ttlcode.CodeStore.DeleteByBookingID": {"Gen.ttlcode.CodeStore.DeleteByBookingID", true},
+			"github.com/practable/relay/internal/ttlcode.CodeStore.SubmitToken":       {"Go.submitToken", true},
+			"github.com/practable/relay/internal/permission.Token.SetBookingID":      {"Gen.permission.Token.SetBookingID", true},
+			"github.com/practable/relay/internal/permission.HasRequiredClaims":       {"Gen.permission.HasRequiredClaims", false},
+			"github.com/practable/relay/internal/permission.NewToken":                {"Gen.permission.NewToken", false},
 		},
+		nonNilWhenTrue: map[string][]string{"github.com/practable/relay/internal/permission.HasRequiredClaims": {"ExpiresAt", "RegisteredClaims.ExpiresAt"}},
 		emptyIface: "Go.Principal",
 		externTys: map[string]string{"github.com/golang-jwt/jwt/v4.Token": "Go.JwtToken", "github.com/golang-jwt/jwt/v4.Claims": "Go.JwtClaims",
 			"github.com/practable/relay/internal/permission.Token": "Gen.permission.Token",
@@ -79,6 +85,7 @@ var trSpecs = []trSpec{
 			"github.com/practable/relay/internal/access/restapi/operations.AllowParams":       "Go.BidExpParams",
 			"github.com/practable/relay/internal/access/restapi/operations.ListDeniedParams":  "Go.NoParams",
 			"github.com/practable/relay/internal/access/restapi/operations.ListAllowedParams": "Go.NoParams",
+			"github.com/practable/relay/internal/access/restapi/operations.SessionParams":     "Go.SessionParams",
 			"github.com/go-openapi/runtime/middleware.Responder":                              "Go.Resp"},
 		optionPtr:  map[string]string{"github.com/golang-jwt/jwt/v4.NumericDate": "Go.NumericDate"},
 		externMeth: map[string]string{"github.com/golang-jwt/jwt/v4.NumericDate.IsZero": "Go.NumericDate.IsZero", "github.com/golang-jwt/jwt/v4.NumericDate.Unix": "Go.NumericDate.unix"},
@@ -322,6 +329,28 @@ func (t *tr) factsWhen(cond ast.Expr, val bool) []string {
 	if e, isEq, ok := t.nilTested(cond); ok && isEq != val {
 		return []string{e}
 	}
+	if u, ok := cond.(*ast.UnaryExpr); ok && u.Op == token.NOT {
+		return t.factsWhen(u.X, !val)
+	}
+	if c, ok := cond.(*ast.CallExpr); ok && val && len(c.Args) == 1 {
+		if se, ok := c.Fun.(*ast.SelectorExpr); ok {
+			if id, isId := se.X.(*ast.Ident); isId {
+				if pn, isPkg := t.info.ObjectOf(id).(*types.PkgName); isPkg {
+					if fields, ok := t.spec.nonNilWhenTrue[pn.Imported().Path()+"."+se.Sel.Name]; ok {
+						arg := c.Args[0]
+						if st, ok := arg.(*ast.StarExpr); ok {
+							arg = st.X
+						}
+						out := []string{}
+						for _, f := range fields {
+							out = append(out, srcString(arg)+"."+f)
+						}
+						return out
+					}
+				}
+			}
+		}
+	}
 	return nil
 }
 
@@ -475,7 +504,21 @@ func (t *tr) expr(e ast.Expr) string {
 				unsup("method value")
 			}
 			if len(sel.Index()) != 1 {
-				unsup("promoted field %s", x.Sel.Name)
+				// a field promoted from embedded structs: spell the path out
+				rt := sel.Recv()
+				path := ""
+				for _, idx := range sel.Index() {
+					if p, ok := rt.(*types.Pointer); ok {
+						rt = p.Elem()
+					}
+					st, ok := rt.Underlying().(*types.Struct)
+					if !ok || idx >= st.NumFields() {
+						unsup("promoted field %s", x.Sel.Name)
+					}
+					path += "." + fieldName(st.Field(idx).Name())
+					rt = st.Field(idx).Type()
+				}
+				return t.expr(x.X) + path
 			}
 			{
 				rt := sel.Recv()
@@ -654,6 +697,20 @@ func (t *tr) call(x *ast.CallExpr, want int) (string, bool) {
 		if id, ok := f.X.(*ast.Ident); ok {
 			if pn, ok := t.info.ObjectOf(id).(*types.PkgName); ok {
 				full := pn.Imported().Path() + "." + f.Sel.Name
+				if ec, ok := t.spec.externCall[full]; ok {
+					args := []string{"w"}
+					for _, a := range x.Args {
+						args = append(args, t.expr(a))
+					}
+					return "(" + ec.lean + " " + strings.Join(args, " ") + ")", ec.mutates
+				}
+				if full == "github.com/golang-jwt/jwt/v4.NewNumericDate" && len(x.Args) == 1 {
+					// jwt.NewNumericDate(time.Unix(sec, 0)): a non-nil date at whole seconds
+					if inner, ok := x.Args[0].(*ast.CallExpr); ok && srcString(inner.Fun) == "time.Unix" && len(inner.Args) == 2 && srcString(inner.Args[1]) == "0" {
+						return "(some ({ unix := " + t.expr(inner.Args[0]) + " } : Go.NumericDate))", false
+					}
+					unsup("jwt.NewNumericDate of something other than time.Unix(sec, 0)")
+				}
 				if full == "errors.New" && len(x.Args) == 1 {
 					return "(some " + t.expr(x.Args[0]) + " : Go.Error)", false
 				}
@@ -1022,6 +1079,11 @@ func (t *tr) stmts(list []ast.Stmt, k cont, ind string, inLoop bool) string {
 					if _, tuple := t.callTarget(c); tuple {
 						return t.callStmt(x.Lhs, c, ind) + rest()
 					}
+					if se, ok := c.Fun.(*ast.SelectorExpr); ok {
+						if ec, ok := t.externCallOf(se); ok && ec.mutates {
+							return t.callStmt(x.Lhs, c, ind) + rest()
+						}
+					}
 				}
 			}
 			t.checkNoMapAlias(x.Lhs[0], x.Rhs[0])
@@ -1222,7 +1284,10 @@ func (t *tr) responder(x *ast.CallExpr) (string, bool) {
 	}
 	cl, ok := arg.(*ast.CompositeLit)
 	if !ok {
-		unsup("reply payload that is not a composite literal")
+		if b, isB := t.typeOf(arg).Underlying().(*types.Basic); isB && b.Info()&types.IsString != 0 {
+			return fmt.Sprintf("(Go.Resp.text %d %s)", code, t.expr(arg)), true
+		}
+		unsup("reply payload that is not a composite literal or a string")
 	}
 	fields := map[string]ast.Expr{}
 	for _, el := range cl.Elts {
@@ -1244,6 +1309,12 @@ func (t *tr) responder(x *ast.CallExpr) (string, bool) {
 			unsup("models.Error payload with other fields")
 		}
 		return fmt.Sprintf("(Go.Resp.error %d %s %s)", code, t.expr(c), t.expr(m)), true
+	case "operations.SessionOKBody":
+		u, ok := fields["URI"]
+		if !ok || len(fields) != 1 {
+			unsup("SessionOKBody payload with other fields")
+		}
+		return fmt.Sprintf("(Go.Resp.uri %d %s)", code, t.expr(u)), true
 	case "models.BookingIDs":
 		d, ok := fields["BookingIds"]
 		if !ok || len(fields) != 1 {
@@ -1258,7 +1329,17 @@ func (t *tr) responder(x *ast.CallExpr) (string, bool) {
 // externCallOf: the call is a method of a struct of ANOTHER translated package (configured)
 func (t *tr) externCallOf(f *ast.SelectorExpr) (externCallSpec, bool) {
 	sel, ok := t.info.Selections[f]
-	if !ok || sel.Kind() != types.MethodVal {
+	if !ok {
+		// package-qualified function of another translated package
+		if id, isId := f.X.(*ast.Ident); isId {
+			if pn, isPkg := t.info.ObjectOf(id).(*types.PkgName); isPkg {
+				ec, ok := t.spec.externCall[pn.Imported().Path()+"."+f.Sel.Name]
+				return ec, ok
+			}
+		}
+		return externCallSpec{}, false
+	}
+	if sel.Kind() != types.MethodVal {
 		return externCallSpec{}, false
 	}
 	rt := sel.Recv()
@@ -1305,11 +1386,37 @@ func (t *tr) callStmt(lhs []ast.Expr, c *ast.CallExpr, ind string) string {
 		if ec, ok := t.externCallOf(se); ok {
 			term, _ := t.call(c, len(lhs))
 			if ec.mutates {
-				if len(lhs) != 0 {
-					unsup("results of a receiver-mutating method of another package")
-				}
 				tmp := t.fresh("recv__")
-				return ind + "let " + tmp + " := " + term + "\n" + t.assignTo(se.X, tmp, ind)
+				if len(lhs) == 0 {
+					// the callee may also return Go results we discard: it returns either the receiver alone or (results…, receiver)
+					nres := 0
+					if sel, ok := t.info.Selections[se]; ok {
+						nres = sel.Obj().Type().(*types.Signature).Results().Len()
+					}
+					if nres == 0 {
+						return ind + "let " + tmp + " := " + term + "\n" + t.assignTo(se.X, tmp, ind)
+					}
+					pats := []string{}
+					for i := 0; i < nres; i++ {
+						pats = append(pats, "_")
+					}
+					return ind + "let (" + strings.Join(append(pats, tmp), ", ") + ") := " + term + "\n" + t.assignTo(se.X, tmp, ind)
+				}
+				pats, post := []string{}, ""
+				for _, l := range lhs {
+					if id, ok := l.(*ast.Ident); ok {
+						if id.Name == "_" {
+							pats = append(pats, "_")
+						} else {
+							pats = append(pats, t.nameOf(t.info.ObjectOf(id)))
+						}
+						continue
+					}
+					r := t.fresh("r__")
+					pats = append(pats, r)
+					post += t.assignTo(l, r, ind)
+				}
+				return ind + "let (" + strings.Join(append(pats, tmp), ", ") + ") := " + term + "\n" + post + t.assignTo(se.X, tmp, ind)
 			}
 			if len(lhs) == 1 {
 				return t.assignTo(lhs[0], term, ind)
